@@ -501,6 +501,21 @@ def monitor_c08(sc, obs):
                         _bad(v, 'C08/longest-idle', 'op %d (t=%d): part %d went from %d to %d (empty since %d) although %d had been empty since %d and was able to take it' % (
                             i, o['now'], r[4], u, b, ib, a, ia))
                         return v
+        # a gate judges the part as it is when it is offered: the received record of the device right behind a gate carries the part's
+        # quality and value of that moment (nothing changes them between the gate and the acceptance, both in the same event)
+        if o['op'][0] == 'step' and o['st'] == 0:
+            for r in o['data']:
+                if r[0] != 6 or r[1] not in devs:
+                    continue
+                held = [it for _, it in _items_in(devs[r[1]]) if it['id'] == r[4]]
+                if not held or len(held[0]['hist']) < 2:
+                    continue
+                g = held[0]['hist'][-2]
+                if kinds.get(g) == 'gate' and ents[g]['decider'][0] in (2, 3, 4, 5) and not held[0]['batch'] \
+                        and not _decide(ents[g]['decider'], dict(q=r[5], v=r[6], id=r[4])):
+                    _bad(v, 'C08/gate-state', 'op %d (t=%d): part %d (quality %d/8, value %d/8 on arrival) reached device %d through gate %d whose predicate rejects it' % (
+                        i, o['now'], r[4], r[5], r[6], r[1], g))
+                    return v
         # gate predicates: a part whose history contains a gate must satisfy it (for state-independent deciders: parity of id);
         # with batches the gate judged the batch object, not its parts
         for d, e in (devs.items() if not has_batches else []):
